@@ -3,7 +3,9 @@ use itertools::Itertools;
 use log::debug;
 
 use crate::{
-    edge::InputEdge, graph::NodeID, one_to_many_dijkstra::OneToManyDijkstra,
+    edge::InputEdge,
+    graph::{Graph, NodeID},
+    one_to_many_dijkstra::OneToManyDijkstra,
     static_graph::StaticGraph,
 };
 
@@ -75,25 +77,40 @@ impl BaseCell {
         let mut dijkstra = OneToManyDijkstra::new();
         let mut matrix = vec![usize::MAX; self.incoming_nodes.len() * self.outgoing_nodes.len()];
 
-        let source_range = 0..self.incoming_nodes.len();
-        let target_range = (self.incoming_nodes.len()
-            ..self.incoming_nodes.len() + self.outgoing_nodes.len())
+        // the ids the boundary nodes were given above; a node may be incoming
+        // and outgoing at the same time, in which case it has a single id
+        let source_ids = self
+            .incoming_nodes
+            .iter()
+            .map(|node| *seen_nodes.get(node).expect("renumbering broken"))
+            .collect_vec();
+        let target_ids = self
+            .outgoing_nodes
+            .iter()
+            .map(|node| *seen_nodes.get(node).expect("renumbering broken"))
             .collect_vec();
         // println!("3, graph: ({},{})", graph.number_of_nodes(), graph.number_of_edges());
-        if !self.edges.is_empty() {
-            for source in source_range {
-                // compute clique information repeated one-to-many calls for each source
-                let _success = dijkstra.run(&graph, source, &target_range);
-                for target in &target_range {
-                    let distance = dijkstra.distance(*target);
-                    let target_index = target - self.incoming_nodes.len();
-                    debug!(
-                        "matrix[{}] distance({source},{target})={distance}",
-                        (source * self.outgoing_nodes.len() + target_index)
-                    );
-
-                    matrix[source * self.outgoing_nodes.len() + target_index] = distance;
+        for (source_index, &source) in source_ids.iter().enumerate() {
+            let row = source_index * self.outgoing_nodes.len();
+            if self.edges.is_empty() || source >= graph.number_of_nodes() {
+                // a boundary node that no edge of the cell touches reaches only itself
+                for (target_index, &target) in target_ids.iter().enumerate() {
+                    if target == source {
+                        matrix[row + target_index] = 0;
+                    }
                 }
+                continue;
+            }
+            // compute clique information repeated one-to-many calls for each source
+            let _success = dijkstra.run(&graph, source, &target_ids);
+            for (target_index, &target) in target_ids.iter().enumerate() {
+                let distance = dijkstra.distance(target);
+                debug!(
+                    "matrix[{}] distance({source},{target})={distance}",
+                    row + target_index
+                );
+
+                matrix[row + target_index] = distance;
             }
         }
         // println!("4");
